@@ -86,8 +86,58 @@ func c12Render(pre []byte, keys, lits [][]byte) string {
 	return sb.String()
 }
 
+func c12ErrClass(err error) string {
+	switch {
+	case err == nil:
+		return "none"
+	case errors.Is(err, dissect.ErrorUnclosedToken):
+		return "unclosed"
+	case errors.Is(err, dissect.ErrorSequentialToken):
+		return "sequential"
+	case errors.Is(err, dissect.ErrorKeyConflict):
+		return "conflict"
+	}
+	return "other " + err.Error()
+}
+
+// c12Grammar: does the real CompileEx accept the text (both modes must agree), and with which error.
+func c12Grammar(pat string) string {
+	_, e0 := dissect.CompileEx(pat, false)
+	_, e1 := dissect.CompileEx(pat, true)
+	if c12ErrClass(e0) != c12ErrClass(e1) {
+		return "impl-modes-disagree " + c12ErrClass(e0) + " " + c12ErrClass(e1)
+	}
+	acc := 0
+	if e0 == nil {
+		acc = 1
+	}
+	return fmt.Sprintf("ok accept=%d err=%s", acc, c12ErrClass(e0))
+}
+
+// c12NameTab: the real SubexpNameTable of a compiled pattern.
+func c12NameTab(ic bool, pat string) string {
+	d, err := dissect.CompileEx(pat, ic)
+	if err != nil {
+		return "err " + c12ErrClass(err)
+	}
+	var names []string
+	for k, v := range d.SubexpNameTable() {
+		names = append(names, fmt.Sprintf("%s:%d", HexS(k), v))
+	}
+	sort.Strings(names)
+	n := "."
+	if len(names) > 0 {
+		n = strings.Join(names, ",")
+	}
+	return fmt.Sprintf("ok n=%s count=%d", n, len(names))
+}
+
 func c12Run(f []string) string {
 	switch f[0] {
+	case "grammar":
+		return c12Grammar(string(UnHex(f[1])))
+	case "nametab":
+		return c12NameTab(f[1] == "1", string(UnHex(f[2])))
 	case "dissect":
 		rep, _ := strconv.Atoi(f[4])
 		return c12Match(f[1] == "1", string(UnHex(f[2])), UnHexList(f[3]), rep)
@@ -264,6 +314,25 @@ func c12GenRawPattern(r *Rand) string {
 	return sb.String()
 }
 
+// a pattern whose names are drawn from a tiny set, so that duplicates among captured names, among
+// skipped names and between the two kinds are frequent; delimiters sometimes contain a bare '%'
+func c12GenDupPat(r *Rand) string {
+	var sb strings.Builder
+	if r.Bool() {
+		sb.WriteString(Pick(r, []string{"k=", "%", "% ", "{", "}", "%%"}))
+	}
+	nt := 1 + r.Intn(5)
+	for i := 0; i < nt; i++ {
+		sb.WriteString("%{")
+		sb.WriteString(Pick(r, []string{"a", "b", "?a", "?b", "", "?", "a", "c", "??a", "a?"}))
+		sb.WriteString("}")
+		if i < nt-1 || r.Bool() {
+			sb.WriteString(Pick(r, []string{" ", ";", "%", " 100% ", "{", "}", "%}", " ", "="}))
+		}
+	}
+	return sb.String()
+}
+
 func c12Gen(r *Rand, tier string) []string {
 	n, big := 2500, 3
 	if tier == "thorough" {
@@ -298,6 +367,39 @@ func c12Gen(r *Rand, tier string) []string {
 			out = append(out, fmt.Sprintf("specp %s %s %s %s %s %d", icS, HexS(p.pre), HexListS(p.keys), HexListS(p.lits), HexList(lines), rep))
 		default:
 			out = append(out, fmt.Sprintf("dissect %s %s %s %d", icS, HexS(p.render()), HexList(lines), rep))
+		}
+	}
+	// the grammar recogniser and the C16 name-table seam: raw texts (dense in %, {, }), rendered
+	// patterns with duplicate / skipped / flagged names, and rendered patterns damaged by one edit
+	ng := n / 2
+	for i := 0; i < ng; i++ {
+		var pat string
+		switch r.Intn(4) {
+		case 0:
+			pat = c12GenRawPattern(r)
+		case 1:
+			pat = c12GenPat(r).render()
+		case 2:
+			pat = c12GenDupPat(r)
+		default:
+			b := []byte(c12GenPat(r).render())
+			if len(b) > 0 {
+				k := r.Intn(len(b))
+				switch r.Intn(3) {
+				case 0:
+					b = append(b[:k:k], b[k+1:]...)
+				case 1:
+					b[k] = Pick(r, []byte{'%', '{', '}', '?', 'a'})
+				default:
+					b = append(b[:k:k], append([]byte{Pick(r, []byte{'%', '{', '}'})}, b[k:]...)...)
+				}
+			}
+			pat = string(b)
+		}
+		if r.Bool() {
+			out = append(out, "grammar "+HexS(pat))
+		} else {
+			out = append(out, fmt.Sprintf("nametab %d %s", r.Intn(2), HexS(pat)))
 		}
 	}
 	// more than 1024 pool slices handed out by one instance (crosses the IntPool refill)
@@ -341,6 +443,22 @@ func c12Gen(r *Rand, tier string) []string {
 			}
 		}
 		rec(nil)
+		// exhaustive: the grammar on every text over {%,{,},a,?,b} up to length 7 (335 923 texts, in
+		// chunks) is too many lines; up to length 6 (55 987) for grammar, up to 5 for nametab
+		alpha6 := []byte{'%', '{', '}', 'a', '?', 'b'}
+		var grec func(cur []byte)
+		grec = func(cur []byte) {
+			out = append(out, "grammar "+Hex(cur))
+			if len(cur) <= 5 && len(cur) >= 3 {
+				out = append(out, "nametab 0 "+Hex(cur))
+			}
+			if len(cur) < 6 {
+				for _, c := range alpha6 {
+					grec(append(append([]byte{}, cur...), c))
+				}
+			}
+		}
+		grec(nil)
 		// exhaustive: pattern "ab%{x}b%{y}" style against every line over {a,b,A} up to length 7
 		pats := []string{"ab%{x}b%{y}", "%{x}ab%{?s}a", "a%{x}aa%{y}a", "%{}B%{x}"}
 		var lrec func(cur []byte, acc *[][]byte)
@@ -374,6 +492,15 @@ func c12Stats(cases []string) map[string]int {
 	for _, c := range cases {
 		f := strings.Fields(c)
 		st["op."+f[0]]++
+		if f[0] == "grammar" || f[0] == "nametab" {
+			pat := string(UnHex(f[len(f)-1]))
+			res := c12Grammar(pat)
+			st["grammar."+res[strings.Index(res, "err=")+4:]]++
+			if strings.Contains(strings.ReplaceAll(pat, "%{", ""), "%") {
+				st["grammar.barePercent"]++
+			}
+			continue
+		}
 		st["ic."+f[1]]++
 		var pat string
 		var lines [][]byte
@@ -444,6 +571,8 @@ func c12Corpus() []string {
 	d := func(ic int, pat string, lines ...string) string {
 		return fmt.Sprintf("dissect %d %s %s 1", ic, HexS(pat), HexListS(lines))
 	}
+	g := func(pat string) string { return "grammar " + HexS(pat) }
+	nt := func(ic int, pat string) string { return fmt.Sprintf("nametab %d %s", ic, HexS(pat)) }
 	return []string{
 		// F16: ignore-case with a non-ASCII literal
 		d(0, "héllo=%{v}", "héllo=1", "HÉLLO=2", "hÉllo=3"),
@@ -460,6 +589,12 @@ func c12Corpus() []string {
 		d(0, "%{}", "", "abc"),
 		d(0, "ab%{x}ab%{y}ab", "ababab", "abab", "abxabyab", "aabbab"),
 		d(0, "%{a}%{b}", "x"), d(0, "%{a", "x"), d(0, "%{a} %{a}", "x"), d(0, "%{a} %{?a} %{}", "1 2 3"),
+		// grammar: bare '%' in every position (F17), '%' directly before a token, unclosed, adjacency
+		// after an empty delimiter only, duplicates between skipped and captured names
+		g("%{a} 100% done %{b}"), g("%{a}%"), g("%%{a}%"), g("%{a}%%{b}"), g("%{a}% %{b}"), g("%"), g("%{"), g("%{}"),
+		g("%{a}{%{b}"), g("%{a}}%{b}"), g("%{?a} %{a} %{?a}"), g("%{a} %{?a} %{a}"), g("%{} %{} %{}"), g("%{a}%{"),
+		g("%{a} %{b"), g("}%{a}"), g("%{?}%{x}"), g("%{a}x%{a"), g("%{a} %{a} %{b"),
+		nt(0, "k=%{x} %{?s};%{y}"), nt(1, "%{B} %{a} %{?B} %{}"), nt(0, "%{a} %{a}"), nt(0, "%{a} 5% %{é}"),
 	}
 }
 
